@@ -142,6 +142,19 @@ func wirePart(p *types.Part) (q *types.Part, class string) {
 	return nil, "other:" + err.Error()
 }
 
+// wireLine: what PartFromProto looks at — the sizes (the model rebuilds byte strings of these lengths)
+func wireLine(p *types.Part) string {
+	al := "-"
+	if len(p.Proof.Aunts) > 0 {
+		ls := make([]string, len(p.Proof.Aunts))
+		for i, a := range p.Proof.Aunts {
+			ls[i] = fmt.Sprint(len(a))
+		}
+		al = strings.Join(ls, ",")
+	}
+	return fmt.Sprintf("W %d %d %d %d %d %s", p.Index, len(p.Bytes), p.Proof.Total, p.Proof.Index, len(p.Proof.LeafHash), al)
+}
+
 func partLine(p *types.Part) string {
 	return fmt.Sprintf("A %d %s %d %d %s %s", p.Index, hx(p.Bytes), p.Proof.Total, p.Proof.Index, hx(p.Proof.LeafHash), aunts(p.Proof.Aunts))
 }
@@ -400,7 +413,7 @@ func runSchedule(o *out.Out, r *gen.Rand, data []byte, partSize uint32, full *ty
 				wc = "PANIC"
 				o.Fail(step, "partfromproto-panic", label)
 			}
-			o.Op("W"+partLine(q)[1:], "w "+wc)
+			o.Op(wireLine(q), "w "+wc)
 			idx := int(q.Index)
 			gen := idx < total && bytes.Equal(q.Bytes, gp[idx].Bytes) && proofEq(&q.Proof, &gp[idx].Proof)
 			if gen && partSize <= types.BlockPartSizeBytes {
@@ -541,7 +554,7 @@ func runSchedule(o *out.Out, r *gen.Rand, data []byte, partSize uint32, full *ty
 func genData(r *gen.Rand, ps uint32) ([]byte, string) {
 	p := int(ps)
 	kind := r.Pick(4, 4, 2, 1, 1, 1, 1)
-	if p <= 32 && r.Chance(1, 40) {
+	if p <= 32 && r.Chance(1, 60) {
 		kind = 7
 	}
 	var n int
@@ -995,7 +1008,7 @@ func opBlock(o *out.Out, b *types.Block) (hash common.Hash, vb error, pan bool) 
 		if err != nil {
 			panic(err)
 		}
-		fmt.Fprintf(&sb, "\nTX %s", hx(bz))
+		fmt.Fprintf(&sb, "\nTX %s", dg(bz)) // (opaque to the model: the list enters through TXROOT only)
 	}
 	if b.LastCommit() != nil {
 		sb.WriteString("\n" + commitLines(b.LastCommit()))
@@ -1476,6 +1489,11 @@ func runBlockCase(o *out.Out, r *gen.Rand, c int) {
 			if hh != blk.Hash() {
 				o.Fail(0, "block-hash-not-header-hash", "")
 			}
+			oh := hh
+			oh[r.Intn(32)] ^= 2
+			if !blk.HashesTo(hh) || blk.HashesTo(oh) || blk.HashesTo(common.Hash{}) {
+				o.Fail(0, "block-hashesto", "Block.HashesTo disagrees with Block.Hash")
+			}
 		}
 	}
 	if lastCommit != nil {
@@ -1507,7 +1525,8 @@ func runBlockCase(o *out.Out, r *gen.Rand, c int) {
 		}
 		return err
 	}
-	stateOK := func(b *types.Block) error { return validate(node, b) }
+	o.Op("XNEW", "xnew")
+	stateOK := func(b *types.Block) error { return opExecValidate(o, node, state, b) } // (after the BLK op of b)
 	baseState := stateOK(blk)
 	if baseState != nil && strings.HasPrefix(baseState.Error(), "PANIC") {
 		o.Fail(1, "validateblock-panic", "BlockExecutor.ValidateBlock panicked on the generated block")
@@ -1726,16 +1745,23 @@ func runBlockCase(o *out.Out, r *gen.Rand, c int) {
 			o.Fail(step, "mutated-block-panic", name)
 			return
 		}
-		mfresh := opValidate(o, state, mb) // (directly after the BLK op of mb)
+		// (directly after the BLK op of mb) the long-lived executor always; the fresh one as an observable only
+		// where the two can differ (same block hash: a possible cache hit)
+		var mfresh error
+		if mh == baseHash {
+			mfresh = opValidate(o, state, mb)
+		} else {
+			mfresh = freshValidate(state, mb)
+		}
 		mstate := stateOK(mb)
 		if (mstate != nil && strings.HasPrefix(mstate.Error(), "PANIC")) || (mfresh != nil && strings.HasPrefix(mfresh.Error(), "PANIC")) {
 			o.Fail(step, "validateblock-panic:"+name, fmt.Sprintf("BlockExecutor.ValidateBlock panicked on the block mutated by %s", name))
 		}
 		outcome := "hash-changed"
-		if mh == baseHash && mvb != nil && mstate == nil && mfresh != nil {
-			// (informational) the node's executor answers from its cache before Block.ValidateBasic is run;
-			// harmless as long as every caller decodes with BlockFromProto, which validates first
-			o.Count("mutation.cache-valid-but-validatebasic-invalid")
+		if mvb != nil && mstate == nil {
+			// the executor that validated the genuine block answers from its cache: the cache key covers the
+			// header and the last commit's height/round/id only, the body is bound by ValidateBasic alone
+			o.Fail(step, "cache-hit-body-unvalidated", fmt.Sprintf("mutation %s of a block (height %d): the mutant fails Block.ValidateBasic (%s) but BlockExecutor.ValidateBlock of the executor that validated the genuine block accepts it (same block hash: %v)", name, height, vbClass(mvb), mh == baseHash))
 		}
 		if mh == baseHash {
 			outcome = "same-hash:" + vbClass(mvb)
@@ -1779,6 +1805,68 @@ func runBlockCase(o *out.Out, r *gen.Rand, c int) {
 		}
 		budget--
 		tryMutant(m.name, pb)
+	}
+	// every body mutation through the executor whose cache holds the genuine block (direct oracle, no model
+	// ops): same header, tampered transactions / evidence / commit signatures must all be rejected
+	if baseValid && baseState == nil {
+		sweep := func(name string, pb *kproto.Block) {
+			mb, err := types.BlockFromProtoUnsafe(pb)
+			if err != nil {
+				return
+			}
+			var mvb, nerr error
+			var mh common.Hash
+			if catch(func() { mh = mb.Hash(); mvb = mb.ValidateBasic(hasher()) }) {
+				return
+			}
+			if mh != baseHash || sameBlock(mb, blk) {
+				return
+			}
+			nerr = validate(node, mb)
+			o.Count("cache-sweep." + name)
+			if nerr == nil && mvb != nil {
+				o.Fail(step, "cache-hit-body-unvalidated", fmt.Sprintf("mutation %s of a valid block (height %d, %d txs): same header, the mutant fails Block.ValidateBasic (%s), but the BlockExecutor that validated the genuine block accepts it", name, height, len(blk.Transactions()), vbClass(mvb)))
+			} else if nerr == nil && !(height == state.InitialHeight && strings.HasPrefix(name, "commit.")) {
+				o.Fail(step, "tamper-undetected:"+name, fmt.Sprintf("mutation %s of a valid block (height %d) keeps Block.Hash %s and is accepted by the executor that validated the genuine block", name, height, baseHash.Hex()))
+			}
+		}
+		for _, m := range ms {
+			if !(strings.HasPrefix(m.name, "tx.") || strings.HasPrefix(m.name, "sig.") || strings.HasPrefix(m.name, "ev.")) {
+				continue
+			}
+			pb := cloneProtoBlock(pb0)
+			if m.f(pb, r) {
+				sweep(m.name, pb)
+			}
+		}
+		if n := len(pb0.Data.Txs); n > 0 {
+			// every transaction replaced (all positions of a short list; ends, DeriveSha's range boundaries and a
+			// few random positions of a long one), and two neighbours swapped somewhere inside
+			pos := map[int]bool{0: true, n - 1: true, n / 2: true, r.Intn(n): true, r.Intn(n): true}
+			for _, i := range []int{1, 126, 127, 128, 129} {
+				if i < n {
+					pos[i] = true
+				}
+			}
+			for i := 0; i < n; i++ {
+				if n > 12 && !pos[i] {
+					continue
+				}
+				pb := cloneProtoBlock(pb0)
+				tx := types.NewTransaction(uint64(9000+i), common.BytesToAddress([]byte{byte(i), 2}), big.NewInt(4), 21000, big.NewInt(3), nil)
+				bz, _ := rlp.EncodeToBytes(tx)
+				pb.Data.Txs[i] = bz
+				sweep("tx.replace", pb)
+			}
+			if n >= 3 {
+				i := 1 + r.Intn(n-2)
+				pb := cloneProtoBlock(pb0)
+				pb.Data.Txs[i], pb.Data.Txs[i+1] = pb.Data.Txs[i+1], pb.Data.Txs[i]
+				if !bytes.Equal(pb.Data.Txs[i], pb.Data.Txs[i+1]) {
+					sweep("tx.swap-inner", pb)
+				}
+			}
+		}
 	}
 	// every position of the transaction list is committed to: replace one transaction at the boundaries of
 	// DeriveSha's three index ranges (1..0x7f, 0, 0x80..) and at the ends
